@@ -151,6 +151,21 @@ def check_history(w: World, lifecycle: Any, apps: list[Any]) -> list[tuple[str, 
             if not missing and not extra:
                 out.append(("multiset-differs", f"{w.alias(inv)}: history {got} vs transitions {want}"))
             continue
+        # stored order (the entries' own timestamps: what get_history sorts by, what the monitor shows)
+        # must respect happens-before: if the hand-over of change c1 returned before change c2 was made,
+        # c1's entry must not carry a later timestamp than c2's
+        ret_of = {round(c["ts"], 6): c["ret"] for c in w.hist_calls if c["inv"] == inv}
+        seq_of = {round(e["ts"], 6): e["seq"] for e in evs}
+        ent = sorted(((round(h.status_record.timestamp.timestamp(), 6), h.timestamp.timestamp(), h.status_record.status.name) for h in hist))
+        for a in range(len(ent)):
+            for b in range(a + 1, len(ent)):
+                r1, s2 = ret_of.get(ent[a][0]), seq_of.get(ent[b][0])
+                if r1 is not None and s2 is not None and r1 <= s2 and ent[a][1] > ent[b][1]:
+                    out.append((f"entry-order-inverted/{ent[a][2]}-after-{ent[b][2]}", f"{w.alias(inv)}: the history entry of {ent[a][2]} carries timestamp {ent[a][1]:.6f}, later than the entry of the subsequent change {ent[b][2]} ({ent[b][1]:.6f}), although {ent[a][2]} had been handed to the history before {ent[b][2]} happened: get_history (ordered by entry time) shows {[x[2] for x in sorted(ent, key=lambda x: x[1])]}"))
+                    break
+            else:
+                continue
+            break
         seq = [h.status_record.status.name for h in sorted(hist, key=lambda h: h.status_record.timestamp)]
         bad = lifecycle.is_path(seq)
         if bad >= 0:
